@@ -254,7 +254,43 @@ class Scenario:
 
 class _GuardedBacking:
     """wraps the backing cache: every access must happen while the SynchronizedCache lock is held"""
-    pass
+    def __init__(self, backing, owner, rec):
+        self._b = backing
+        self._o = owner
+        self._rec = rec
+
+    def _chk(self):
+        lk = getattr(self._o, "_lock", None)
+        if not (isinstance(lk, sched.CoopLock) and lk.owner is not None):
+            self._rec.guard_violations += 1
+
+    def clear(self):
+        self._chk()
+        return self._b.clear()
+
+    def get(self, *a):
+        self._chk()
+        return self._b.get(*a)
+
+    def __contains__(self, k):
+        self._chk()
+        return k in self._b
+
+    def __delitem__(self, k):
+        self._chk()
+        del self._b[k]
+
+    def __getitem__(self, k):
+        self._chk()
+        return self._b[k]
+
+    def __len__(self):
+        self._chk()
+        return len(self._b)
+
+    def __setitem__(self, k, v):
+        self._chk()
+        self._b[k] = v
 
 
 class CacheScenario(Scenario):
@@ -266,8 +302,16 @@ class CacheScenario(Scenario):
         lk = getattr(self.cache, "_lock", None)
         if isinstance(lk, sched.CoopLock):
             lk.log = _LockLog(self.rec)
+        self.cache._backing_cache = _GuardedBacking(self.cache._backing_cache, self.cache, self.rec)
 
     def do(self, call):
+        before = self.rec.guard_violations
+        r = self._do(call)
+        if self.rec.guard_violations != before:
+            return [10, 1]        # the LRU cache was touched outside the critical section
+        return r
+
+    def _do(self, call):
         op = call[0]
         c = self.cache
         if op == 0:
@@ -464,8 +508,9 @@ def yaml_text(pairs):
 
 class YamlScenario(Scenario):
     files = [YT.__file__, VC.__file__]
-    funcs = {"get_data": None, "compile_data": 8, "_process_data_file": 12, "_process_data_files": 4,
-             "_process_top": 3, "_render": None, "__getitem__": None, "__setitem__": None, "get": None}
+    # yield points: the first lines of compile_data (where the per-call state is set up), every lock
+    # operation of the item cache, and every file open (explicit yield in the wrapper below)
+    funcs = {"compile_data": 9}
 
     def build(self):
         c = self.case
@@ -483,6 +528,10 @@ class YamlScenario(Scenario):
         tmp = self.tmp
         def opener(path, *a, **k):
             i = rec.me()
+            sc = sched._current
+            st = sc.me() if sc is not None else None
+            if st is not None and not sc.free:
+                sc.yield_point(st)                             # a file may change right before it is read
             if i is not None and os.path.basename(str(path)) != "top.yaml":
                 rec.emit(i, upto=rec.total.get(i, 0) - 3)      # one file read = one step of the compile phase
             return open(path, *a, **k)
@@ -601,8 +650,8 @@ class C19(Check):
         for tree, edits in (([0, 1, 0], [0]), ([0, 1], [1]), ([0, 1, 0], [1])):
             y = {"comp": "yaml", "table": tbl, "tree": tree, "w0": [0, 0], "edits": edits}
             out.append((dict(y, calls=[[[0]]]), b2))
-            out.append((dict(y, calls=[[[0]], [[0]]]), b1))
-            out.append((dict(y, calls=[[[0], [0]], [[0]]]), b1))
+            out.append((dict(y, calls=[[[0]], [[0]]]), b2))
+            out.append((dict(y, calls=[[[0], [0]], [[0]]]), b1 if q else 2))
         return out
 
     def gen(self, tier, rng):
